@@ -90,6 +90,19 @@ def check(ck):
         keys = {unparse(k): unparse(v) for k, v in zip(d[0].keys, d[0].values)} if d else {}
         ck.ob("error record: message (string), path, locations", set(keys) == {"'message'", "'path'", "'locations'"} and keys.get("'message'") == "self.user_message or self.message"
               and keys.get("'path'") == "path or self.path", cv, d[0] if d else cv.node, construct="record:keys", detail=str(keys))
+        fvv = FuncView(cv)
+        rets = fvv.returns()
+        dname = None
+        for n in walk_no_nested(cv.node):
+            if isinstance(n, ast.Assign) and isinstance(n.value, ast.Dict) and d and n.value is d[0]:
+                dname = unparse(n.targets[0])
+        ck.ob("error record: coerce_value returns the record it built", len(rets) == 1 and dname is not None and unparse(rets[0].value) == dname, cv, rets[0] if rets else cv.node, construct="record:returned")
+        ext = [n for n in walk_no_nested(cv.node) if isinstance(n, ast.Assign) and isinstance(n.targets[0], ast.Subscript) and unparse(n.targets[0].slice) == "'extensions'"]
+        ck.ob("error record: `extensions` is present exactly when the error carries some", len(ext) == 1 and set(fvv.conditions(ext[0])) == {("self.extensions", "T")} and
+              unparse(ext[0].targets[0].value) == dname, cv, ext[0] if ext else cv.node, construct="record:extensions-iff")
+        lp = [l for l in fvv.loops() if isinstance(l, ast.For)]
+        ck.ob("error record: locations come from the attached locations, else from the error's own", len(lp) == 1 and unparse(lp[0].iter) == "locations or self.locations", cv,
+              lp[0] if lp else cv.node, construct="record:locations-source")
         loc = repo.func("tartiflette/language/ast/location.py", "Location.collect_value")
         r = FuncView(loc).returns()
         ok = len(r) == 1 and isinstance(r[0].value, ast.Dict) and {unparse(k): unparse(v) for k, v in zip(r[0].value.keys, r[0].value.values)} == {"'line'": "self.line", "'column'": "self.column"}
@@ -126,6 +139,12 @@ def _sources_coercible(ck, repo):
     r = FuncView(t).returns()
     ok = len(r) == 1 and ifexp_parts(r[0].value) is not None and ifexp_parts(r[0].value)[0] == f"is_coercible_exception({t.positional_params[0]})" and ifexp_parts(r[0].value)[2].startswith("TartifletteError(")
     ck.ob("to_graphql_error wraps non-coercible exceptions", ok, t, t.node, construct="source:to_graphql_error")
+    rr = r[0].value if len(r) == 1 else None
+    from ..q import arg_text as _at
+    call = rr.orelse if isinstance(rr, ast.IfExp) and not (isinstance(rr.test, ast.UnaryOp)) else None
+    ck.ob("to_graphql_error keeps the given message (else the exception's text) and the original error",
+          isinstance(call, ast.Call) and _at(call, 0) == f"{t.positional_params[1]} or str({t.positional_params[0]})" and _at(call, None, "original_error") == t.positional_params[0], t,
+          t.node, construct="source:to_graphql_error:operands")
     p = repo.func("tartiflette/execution/collect.py", "parse_and_validate_query")
     hs = FuncView(p).handlers()
     for h in hs:
